@@ -92,11 +92,13 @@ def errcode(e):
 
 
 def hsum(*args):
-    """A plain Python function for apply_func."""
+    """A plain Python function for apply_func (counted like a task function)."""
+    hit("hsum", *args)
     return mix("hsum", *args)
 
 
 def hlist(*args):
+    hit("hlist", *args)
     return [mix("hl", a) for a in args]
 
 
@@ -114,3 +116,22 @@ def hit(name, *args):
 def reset_hits():
     HITS.clear()
     del HIT_LOG[:]
+
+
+# Simulated clock for file mtimes (generated file-writing tasks stamp their outputs with it).
+CLOCK = [1_700_000_000.0]
+
+
+def tick(dt=1.0):
+    CLOCK[0] += dt
+    return CLOCK[0]
+
+
+def stamp(f):
+    """Give a redun File the next simulated mtime and refresh its hash (as user code may)."""
+    import os
+
+    t = tick(1.0)
+    os.utime(f.path, (t, t))
+    f.update_hash()
+    return f
